@@ -173,3 +173,105 @@ fn c18_sx126x_get_rx_payload() {
     kani::cover!(matches!(res, Err(RadioError::PayloadSizeMismatch(_, _))), "verif-reached: chip reports more than the buffer holds");
     kani::cover!(res.is_ok(), "verif-reached: ok");
 }
+
+// ------------------------------------------------------------------------------------------------ C14: A-chip refinement (SX126x)
+// The C14 harnesses (phy_lora.rs) run LoRa<RK> against an ABSTRACT chip whose mode changes are tied to RadioKind methods
+// (set_standby -> standby, set_sleep -> asleep / cold = configuration lost, do_tx/do_rx/do_cad -> leaves standby,
+// ensure_ready(Sleep | duty cycle) -> woken).  The obligations below discharge that tie for the REAL SX126x driver against
+// the datasheet command set (SX1261/2 DS rev 2.1, 13.1): SetSleep 0x84 (sleepConfig bit 2 = warm start / retention,
+// bit 0 = RTC wake-up), SetStandby 0x80 (0 = STDBY_RC), SetTx 0x83, SetRx 0x82 (0xFFFFFF = continuous), SetRxDutyCycle 0x94,
+// SetCad 0xC5, GetStatus 0xC0 (any NSS falling edge wakes the chip).  What stays assumed: the silicon implements the datasheet.
+fn last_cmd() -> (u8, usize, [u8; 12]) { let g = unsafe { &*(&raw const SPI) }; if g.n == 0 { (0, 0, [0; 12]) } else { (g.w[g.n - 1][0], g.wl[g.n - 1], g.w[g.n - 1]) } }
+fn mode_changing(op: u8) -> bool { matches!(op, 0x84 | 0x80 | 0xC1 | 0x83 | 0x82 | 0x94 | 0xC5 | 0xD1 | 0xD2) }
+/// no command of the log, except possibly the last one, changes the chip's operating mode
+fn only_last_changes_mode() -> bool { let g = unsafe { &*(&raw const SPI) }; let mut i = 0; let mut ok = true; while i < LOG_LEN { if i + 1 < g.n && mode_changing(g.w[i][0]) { ok = false; } i += 1; } ok && g.n < LOG_LEN }
+
+// @verif props=C14 obligation=Sx126x::set_standby.chip_mode label=proved-complete tier=quick
+#[kani::proof]
+#[kani::unwind(26)]
+fn c14_sx126x_set_standby() {
+    tape::init();
+    let mut r = radio();
+    let res = r.set_standby();
+    let g = unsafe { &*(&raw const SPI) };
+    if res.is_ok() { assert!(g.n == 1 && g.wl[0] == 2 && g.w[0][0] == 0x80 && g.w[0][1] == 0x00, "C14 set_standby commands SetStandby(STDBY_RC) and nothing else: chip in standby afterwards"); }
+    kani::cover!(res.is_ok(), "verif-reached: standby commanded");
+}
+// @verif props=C14 obligation=Sx126x::set_sleep.chip_mode label=proved-complete tier=quick
+#[kani::proof]
+#[kani::unwind(26)]
+fn c14_sx126x_set_sleep() {
+    tape::init();
+    let mut r = radio();
+    let warm = tape::boolean();
+    let res = r.set_sleep(warm, &mut MockDelay);
+    let g = unsafe { &*(&raw const SPI) };
+    if res.is_ok() {
+        assert!(g.n == 1 && g.wl[0] == 2 && g.w[0][0] == 0x84, "C14 set_sleep commands SetSleep and nothing else");
+        assert!((g.w[0][1] & 0x04 != 0) == warm && g.w[0][1] & 0x01 == 0 && g.w[0][1] & 0xfa == 0, "C14 SetSleep: configuration retained exactly when a warm start was asked for (cold sleep loses it, as the driver's cold_start bookkeeping assumes); no RTC wake-up, RFU bits clear");
+    }
+    kani::cover!(res.is_ok() && warm, "verif-reached: warm sleep");
+    kani::cover!(res.is_ok() && !warm, "verif-reached: cold sleep");
+}
+// @verif props=C14 obligation=Sx126x::ensure_ready.wakes label=proved-complete tier=quick bound="every RadioMode (RX modes with any symbol count / duty cycle arguments)"
+#[kani::proof]
+#[kani::unwind(26)]
+fn c14_sx126x_ensure_ready() {
+    tape::init();
+    let mut r = radio();
+    let k = tape::below(9);
+    let mode = match k { 0 => RadioMode::Sleep, 1 => RadioMode::Standby, 2 => RadioMode::Transmit, 3 => RadioMode::ChannelActivityDetection, 7 => RadioMode::FrequencySynthesis, 8 => RadioMode::Listen,
+        4 => RadioMode::Receive(RxMode::Single(tape::u16())), 5 => RadioMode::Receive(RxMode::Continuous), _ => RadioMode::Receive(RxMode::DutyCycle(DutyCycleParams { rx_time: tape::u32(), sleep_time: tape::u32() })) };
+    let res = r.ensure_ready(mode);
+    let g = unsafe { &*(&raw const SPI) };
+    if res.is_ok() {
+        if k == 0 || k == 6 { assert!(g.n == 1 && g.w[0][0] == 0xC0 && g.wl[0] == 2, "C14 a chip that may be asleep (Sleep, RX duty cycle) is woken with a GetStatus transaction before anything else is sent"); }
+        else { assert!(g.n == 0, "C14 in every other mode ensure_ready only waits on BUSY: no command"); }
+    }
+    kani::cover!(res.is_ok() && k == 0, "verif-reached: woken from sleep");
+    kani::cover!(res.is_ok() && k == 2, "verif-reached: busy wait only");
+}
+// @verif props=C14 obligation=Sx126x::do_tx.chip_mode label=proved-complete tier=quick
+#[kani::proof]
+#[kani::unwind(26)]
+fn c14_sx126x_do_tx() {
+    tape::init();
+    let mut r = radio();
+    let res = r.do_tx();
+    let (op, len, b) = last_cmd();
+    if res.is_ok() { assert!(op == 0x83 && len == 4 && b[1] == 0 && b[2] == 0 && b[3] == 0 && only_last_changes_mode(), "C14 do_tx ends with SetTx (no chip-side timeout: the driver's own IRQ wait decides) and commands no other mode change"); }
+    kani::cover!(res.is_ok(), "verif-reached: tx started");
+}
+// @verif props=C14 obligation=Sx126x::do_rx.chip_mode label=proved-complete tier=quick bound="single (any symbol count), continuous, duty cycle (any times)"
+#[kani::proof]
+#[kani::unwind(26)]
+fn c14_sx126x_do_rx() {
+    tape::init();
+    let mut r = radio();
+    let k = tape::below(3);
+    let mode = match k { 0 => RxMode::Single(tape::u16()), 1 => RxMode::Continuous, _ => RxMode::DutyCycle(DutyCycleParams { rx_time: tape::u32(), sleep_time: tape::u32() }) };
+    let res = r.do_rx(mode);
+    let (op, len, b) = last_cmd();
+    if res.is_ok() {
+        assert!(only_last_changes_mode(), "C14 do_rx commands exactly one mode change, last");
+        match k {
+            0 => assert!(op == 0x82 && len == 4 && b[1] == 0 && b[2] == 0 && b[3] == 0, "C14 single reception: SetRx with the chip timer off (the symbol-count timeout ends the window)"),
+            1 => assert!(op == 0x82 && len == 4 && b[1] == 0xff && b[2] == 0xff && b[3] == 0xff, "C14 continuous reception: SetRx(0xFFFFFF)"),
+            _ => assert!(op == 0x94 && len == 7, "C14 duty-cycle reception: SetRxDutyCycle"),
+        }
+    }
+    kani::cover!(res.is_ok() && k == 0, "verif-reached: single");
+    kani::cover!(res.is_ok() && k == 2, "verif-reached: duty cycle");
+}
+// @verif props=C14 obligation=Sx126x::do_cad.chip_mode label=proved-complete tier=quick bound="all 8 SF x 10 BW"
+#[kani::proof]
+#[kani::unwind(26)]
+fn c14_sx126x_do_cad() {
+    tape::init();
+    let mut r = radio();
+    let p = ModulationParams { spreading_factor: SFS[tape::below(8)], bandwidth: BWS[tape::below(10)], coding_rate: CodingRate::_4_5, low_data_rate_optimize: 0, frequency_in_hz: tape::u32() };
+    let res = r.do_cad(&p);
+    let (op, len, _b) = last_cmd();
+    if res.is_ok() { assert!(op == 0xC5 && len == 1 && only_last_changes_mode(), "C14 do_cad ends with SetCad and commands no other mode change"); }
+    kani::cover!(res.is_ok(), "verif-reached: cad started");
+}
